@@ -142,6 +142,61 @@ CATALOG = [
     ("S", lambda r: ["case", "-u", "-k", "-f", "a,b"]),
     ("S", lambda r: ["skip-trivial-records"]),
     ("S", lambda r: ["seqgen", "--start", "1", "--stop", str(r.choice([0, 1, 5, 499, 500, 501, 1200])), "-f", "i"]),
+    # second catalogue batch: more verbs with state that crosses batch boundaries or look-ahead
+    ("S", lambda r: ["repeat", "-n", str(r.randint(1, 3))]),
+    ("S", lambda r: ["step", "-a", "shift_lead,ratio,rprod", "-f", "i"]),
+    ("S", lambda r: ["step", "-a", r.choice(["slwin_2_2", "slwin_0_3,from-first", "slwin_1_0"]), "-f", r.choice(["x", "i"])]),
+    ("S", lambda r: ["step", "-a", "shift_lag_2,delta_2,shift_lead_2", "-f", "i", "-g", "a"]),
+    ("S", lambda r: ["stats1", "-s", "-a", "sum,count", "-f", "i"]),
+    ("S", lambda r: ["stats1", "-w", str(r.randint(1, 4)), "-a", "mean,max", "-f", "i", "-g", "a"]),
+    ("S", lambda r: ["gap", "-n", str(r.randint(1, 3))]),
+    ("S", lambda r: ["gap", "-g", r.choice(["a", "a,b"])]),
+    ("S", lambda r: ["flatten"]),
+    ("S", lambda r: ["unflatten"]),
+    ("S", lambda r: ["json-parse", "-f", "i"]),
+    ("S", lambda r: ["clean-whitespace"]),
+    ("S", lambda r: ["unspace"]),
+    ("S", lambda r: ["ssub", "-f", "a,b", "e", "E"]),
+    ("S", lambda r: ["utf8-to-latin1"]),
+    ("S", lambda r: ["having-fields", "--any-matching", "^[bz]$"]),
+    ("S", lambda r: ["having-fields", "--at-most", "a,b,i,x,y"]),
+    ("S", lambda r: ["sparsify", "-s", "X"]),
+    ("S", lambda r: ["template", "--fill-with", "N", "-f", "a,q,i"]),
+    ("S", lambda r: ["nest", "--evar", ";", "-f", "b"]),
+    ("S", lambda r: ["cut", "-r", "-f", "^[abx]"]),
+    ("S", lambda r: ["rename", "-g", "-r", "a,A"]),
+    ("S", lambda r: ["fill-down", "--all"]),
+    ("S", lambda r: ["fill-empty", "-S"]),
+    ("S", lambda r: ["grep", "-a", "pan"]),
+    ("S", lambda r: ["case", "-s", "-v", "-f", "a,b"]),
+    ("S", lambda r: ["bar", "-f", "x", "--lo", "0", "--hi", "1"]),
+    ("S", lambda r: ["sec2gmt", "--millis", "i"]),
+    ("S", lambda r: ["rank", "--sorted", "-f", "a"]),
+    ("S", lambda r: ["top", "-n", "1", "-f", "x", "-g", "a", "-a"] if False else ["count-similar", "-g", "b"]),
+    ("S", lambda r: ["put", r.choice(["@prev = is_present(@cur) ? @cur : \"none\"; @cur = $a; $prev = @prev",
+                                      "@count[$a] = is_present(@count[$a]) ? @count[$a] + 1 : 1; $n = @count[$a]",
+                                      "begin { @first = \"\" } if (@first == \"\") { @first = $a } $first = @first",
+                                      "$idx = NR % 3; if (NR > 2) { unset $x }",
+                                      "map m = {}; m[NR] = $i; $s = joinv(m, \",\")"])]),
+    ("N", lambda r: ["summary"]),
+    ("N", lambda r: ["summary", "-a", "mean,minlen,null_count,median", "--transpose"]),
+    ("N", lambda r: ["rank", "-f", r.choice(["x", "i"])]),
+    ("N", lambda r: ["rank", "-f", "i", "-g", "a"]),
+    ("N", lambda r: ["describe"]),
+    ("N", lambda r: ["remove-empty-columns"]),
+    ("N", lambda r: ["sparkline", "-f", "x,i"]),
+    ("N", lambda r: ["bar", "--auto", "-f", "x"]),
+    ("N", lambda r: ["histogram", "-f", "x", "--auto", "--nbins", "3"]),
+    ("N", lambda r: ["merge-fields", "-c", "x,y", "-a", "sum,count"]),
+    ("N", lambda r: ["top", "-n", "2", "-f", "i", "--min", "-g", "b"]),
+    ("N", lambda r: ["stats1", "-a", "null_count,count,antimode,minlen", "--fr", "^[ix]$", "-g", "a"]),
+    ("N", lambda r: ["count-distinct", "-f", "a,b", "-u"]),
+    ("N", lambda r: ["sort-within-records", "-r"]),
+    ("N", lambda r: ["nest", "--implode", "--values", "--across-records", "-f", "i", "--nested-fs", ";"]),
+    ("N", lambda r: ["put", "-q", r.choice(["@recs[NR] = $*; end { for (k, v in @recs) { emit v } }",
+                                            "@sum += $i; @cnt += 1; end { emit (@sum, @cnt) }",
+                                            "@by[$a][$b] = $i; end { emit @by, \"a\", \"b\" }",
+                                            "@last[$a] = $*; end { emit @last, \"a\" }"])]),
     ("N", lambda r: ["sort", r.choice(["-f", "-r", "-c"]), r.choice(["a", "b", "a,b"])]),
     ("N", lambda r: ["sort", r.choice(["-nf", "-nr"]), r.choice(["i", "x", "y"])]),
     ("N", lambda r: ["sort", "-f", "a", "-nr", "x"]),
@@ -155,7 +210,7 @@ CATALOG = [
     ("N", lambda r: ["count-distinct", "-f", r.choice(["a", "a,b", "b"])]),
     ("N", lambda r: ["count-distinct", "-u", "-f", "a,b"]),
     ("N", lambda r: ["count-similar", "-g", "a"]),
-    ("N", lambda r: ["stats1", "-a", r.choice(["mean,sum,count", "min,max,mode", "p10,p50,p90", "var,meaneb", "first,last,distinct_count", "median,iqr"]), "-f", r.choice(["x", "i", "x,y"])]),
+    ("N", lambda r: ["stats1", "-a", r.choice(["mean,sum,count", "min,max,mode", "p10,p50,p90", "var,meaneb", "mad,kurtosis,distinct_count", "median,skewness,maxlen"]), "-f", r.choice(["x", "i", "x,y"])]),
     ("N", lambda r: ["stats1", "-a", "sum,count,p50", "-f", "x,i", "-g", r.choice(["a", "a,b"])]),
     ("N", lambda r: ["stats1", "-i", "-a", "p25,p75", "-f", "y", "-g", "b"]),
     ("N", lambda r: ["stats2", "-a", "linreg-ols,r2,cov", "-f", "x,y"]),
